@@ -1,8 +1,9 @@
 --------------------------- MODULE PhyResetTrace ---------------------------
 (***************************************************************************)
 (* Trace validation for PhyReset.  A trace is                              *)
-(*   [cfg |-> [R, S, por], steps |-> << [t, r, s], ... >>]                 *)
-(* one record per clock cycle from power-on: t = trigger input, r / s =    *)
+(*   [cfg |-> [R, S, por], steps |-> << [t, x, r, s], ... >>]              *)
+(* one record per clock cycle from power-on: t = trigger input, x = reset   *)
+(* of the clock domain asserted in that cycle, r / s =                     *)
 (* phy_reset / phy_stop observed in that cycle.  The observed outputs name *)
 (* the phase of the cycle; it must be one the reference allows.            *)
 (***************************************************************************)
@@ -24,6 +25,7 @@ PhaseOf(rec) == IF rec.r /\ rec.s THEN "reset"
 Failing(p) ==
     IF p \in Allowed THEN "ok"
     ELSE IF p = "reset_without_stop" THEN "stop_not_asserted_during_reset"
+    ELSE IF rst THEN (IF por THEN "no_power_on_reset_after_domain_reset" ELSE "not_idle_after_domain_reset")
     ELSE IF ph = "boot" THEN (IF por THEN "no_power_on_reset" ELSE "unrequested_power_on_reset")
     ELSE IF ph = "reset" THEN (IF cnt < R THEN "reset_too_short"
                                ELSE IF p = "reset" THEN "reset_too_long" ELSE "stop_missing")
@@ -42,7 +44,7 @@ TNext == /\ status = "ok"
          /\ LET rec == Logs[tid].steps[l]
                 p   == PhaseOf(rec) IN
               /\ status' = Failing(p)
-              /\ IF p \in Allowed THEN Step(rec.t, p) ELSE UNCHANGED vars
+              /\ IF p \in Allowed THEN Step(rec.t, rec.x, p) ELSE UNCHANGED vars
          /\ l' = l + 1
          /\ UNCHANGED tid
 
